@@ -197,6 +197,9 @@ class Hist:
     def D(self, h):
         assert h in self.live
         self.steps.append(["D", str(h)]); del self.live[h]
+    def Z(self, h, n):
+        assert h in self.live
+        self.steps.append(["Z", str(h), str(n)])
     def fmt(self):
         return " ".join(["c18", self.dom, str(self.nv)] + [" ".join(s) for s in self.steps])
     def copy(self):
@@ -263,7 +266,20 @@ def assign_same_root_hist(rng, dom, nv):
     for h in sorted(t.live): t.D(h)
     return t
 
-ARITY18 = {"C": 4, "K": 2, "Y": 2, "A": 2, "U": 3, "B": 4, "T": 5, "E": 4, "X": 4, "D": 1}
+def bulk_hist(rng, dom, nv):
+    """a diagram that is, for a while, referred to by very many objects (n temporary copies made and destroyed again: reference counters far
+    beyond 16 bits), with ordinary objects alive before and after"""
+    t = Hist(dom, nv)
+    vals = list(range(NVAL[dom]))
+    h0 = t.C(rand_asgn(rng, rng.randint(1, nv), 0.3), rng.choice(vals), rng.choice(vals))
+    h1 = t.Y(h0) if rng.random() < 0.5 else t.C(rand_asgn(rng, rng.randint(1, nv), 0.3), rng.choice(vals), rng.choice(vals))
+    t.Z(rng.choice([h0, h1]), rng.choice([65535, 65536, 70000, 131072]))
+    if rng.random() < 0.5: t.B(rng.randrange(NOPS[dom][1]), h0, h1)
+    lv = sorted(t.live); rng.shuffle(lv)
+    for h in lv: t.D(h)
+    return t
+
+ARITY18 = {"C": 4, "K": 2, "Y": 2, "A": 2, "U": 3, "B": 4, "T": 5, "E": 4, "X": 4, "D": 1, "Z": 2}
 def parse18(line):
     w = line.split()
     assert w[0] == "c18"
@@ -275,7 +291,7 @@ def parse18(line):
 
 def uses18(s):
     k = s[0]
-    idx = {"C": [], "K": [], "Y": [2], "A": [1, 2], "U": [3], "B": [3, 4], "T": [3, 4, 5], "E": [4], "X": [4], "D": [1]}[k]
+    idx = {"C": [], "K": [], "Y": [2], "A": [1, 2], "U": [3], "B": [3, 4], "T": [3, 4, 5], "E": [4], "X": [4], "D": [1], "Z": [1]}[k]
     return [int(s[i]) for i in idx]
 def creates18(s): return s[0] in "CKYUBTEX"
 
